@@ -357,7 +357,20 @@ fn one_case(
                 Some(target) if &target == p => {
                     rep.violation(cls("C03", "file-imports-from-itself"), det(json!({"file": rel(p), "spec": i.spec, "text": text})));
                 }
-                Some(target) => match parsed.get(&target) {
+                Some(target) => {
+                    // C08: the specifier denotes exactly the file each imported type lives in
+                    for n in &i.names {
+                        if let Some(l) = locs.get(n) {
+                            let want = abs_of(l);
+                            if want != target {
+                                rep.violation(
+                                    cls("C08", "specifier-does-not-denote-the-dependency-file"),
+                                    det(json!({"file": rel(p), "spec": i.spec, "name": n, "resolves_to": rel(&target), "dependency_file": rel(&want)})),
+                                );
+                            }
+                        }
+                    }
+                    match parsed.get(&target) {
                     None => rep.violation(
                         cls("C03", "import-names-a-file-this-export-did-not-write"),
                         det(json!({"file": rel(p), "spec": i.spec, "resolves_to": rel(&target), "written": expected_rel})),
@@ -372,7 +385,8 @@ fn one_case(
                             }
                         }
                     }
-                },
+                    }
+                }
                 None => rep.violation(cls("C08", "specifier-climbs-above-root"), det(json!({"file": rel(p), "spec": i.spec}))),
             }
         }
